@@ -107,6 +107,11 @@ def install(extra_modules=()):
         for k, f in SHADOWS.items():
             g[k] = f
         _installed[name] = rep
+    # validate the trusted base against the genuine CPython objects before anything is decided with it
+    from . import selftest
+
+    selftest.quick()  # raises SelfTestFailure -> the check ends inconclusive (exit 2), never as a verdict
+    _installed["__selftest__"] = ["quick differential validation of struct/int/BytesIO/datetime models passed"]
     return _installed
 
 
